@@ -4,6 +4,7 @@
 -/
 import FileD.Model.KafkaCommit
 import FileD.Spec.C10
+import FileD.Lemmas.KafkaPack
 namespace FileD.LemmasKafkaCommit
 open FileD FileD.KafkaCommit FileD.SpecC10
 
@@ -359,6 +360,81 @@ theorem ackInOrder_of_fifo1 (c : Cfg) (hf : c.fifo = true) (s : State) (op : Op)
         · have := (List.pairwise_cons.mp (by simpa using hp)).1 j hm
           omega
     · cases hs
+
+/-! ### unpacking a packed in-range record -/
+
+theorem unpack_in_range (r : Rec) (hr : inRange r.topic r.part r.offset r.epoch = true) :
+    (Gen.KafkaPack.disassembleSourceID (packSourceID r)).1.toInt = r.topic ∧
+    (Gen.KafkaPack.disassembleSourceID (packSourceID r)).2.toInt = r.part ∧
+    (Gen.KafkaPack.disassembleOffset (packOffset r)).Epoch.toInt = r.epoch ∧
+    (Gen.KafkaPack.disassembleOffset (packOffset r)).Offset.toInt = r.offset + 1 := by
+  simp only [inRange, decide_eq_true_eq] at hr
+  obtain ⟨t0, t1, p0, p1, o0, o1, e0, e1⟩ := hr
+  have ht : (BitVec.ofInt 64 r.topic).toNat = r.topic.toNat := by
+    rw [BitVec.toNat_ofInt]; congr 1; omega
+  have hp : (BitVec.ofInt 32 r.part).toNat = r.part.toNat := by
+    rw [BitVec.toNat_ofInt]; congr 1; omega
+  have ho : (BitVec.ofInt 64 r.offset).toNat = r.offset.toNat := by
+    rw [BitVec.toNat_ofInt]; congr 1; omega
+  have he : (BitVec.ofInt 32 r.epoch).toNat = r.epoch.toNat := by
+    rw [BitVec.toNat_ofInt]; congr 1; omega
+  have h1 := LemmasKafkaPack.sourceID_roundtrip (BitVec.ofInt 64 r.topic) (BitVec.ofInt 32 r.part)
+    (by rw [ht]; omega) (by rw [hp]; omega)
+  have h2 := LemmasKafkaPack.offset_roundtrip
+    { Partition := BitVec.ofInt 32 r.part, ProducerEpoch := 0, ProducerID := 0,
+      LeaderEpoch := BitVec.ofInt 32 r.epoch, Offset := BitVec.ofInt 64 r.offset }
+    (by show (BitVec.ofInt 64 r.offset).toNat < 2 ^ 47; rw [ho]; omega)
+    (by show (BitVec.ofInt 32 r.epoch).toNat < 2 ^ 16; rw [he]; omega)
+  have one : (1 : BitVec 64).toNat = 1 := rfl
+  simp only [packSourceID, packOffset, h1, h2]
+  refine ⟨?_, ?_, ?_, ?_⟩
+  · rw [BitVec.toInt_eq_toNat_cond, ht]; split <;> omega
+  · rw [BitVec.toInt_eq_toNat_cond, hp]; split <;> omega
+  · rw [BitVec.toInt_eq_toNat_cond, he]; split <;> omega
+  · rw [BitVec.toInt_eq_toNat_cond, BitVec.toNat_add, ho, one]; split <;> omega
+
+/-! ### topic ids -/
+
+/-- the id Start assigns is a position of that very name in the raw list -/
+theorem topicIDFrom_spec (i : Nat) (topics : List Int) (name : Int) (j : Nat)
+    (h : topicIDFrom i topics name = some j) : i ≤ j ∧ topics[j - i]? = some name := by
+  induction topics generalizing i with
+  | nil => simp [topicIDFrom] at h
+  | cons t ts ih =>
+    simp only [topicIDFrom] at h
+    cases hr : topicIDFrom (i + 1) ts name with
+    | some k =>
+      rw [hr] at h; simp at h; subst h
+      have := ih (i + 1) hr
+      refine ⟨by omega, ?_⟩
+      have e : k - i = (k - (i + 1)) + 1 := by omega
+      rw [e]; simpa using this.2
+    | none =>
+      rw [hr] at h
+      simp only at h
+      split at h
+      · rename_i ht; cases h; simp [ht]
+      · cases h
+
+theorem topicIDFrom_some_of_mem (i : Nat) (topics : List Int) (name : Int) (h : name ∈ topics) :
+    ∃ j, topicIDFrom i topics name = some j := by
+  induction topics generalizing i with
+  | nil => cases h
+  | cons t ts ih =>
+    simp only [topicIDFrom]
+    cases hr : topicIDFrom (i + 1) ts name with
+    | some k => exact ⟨k, rfl⟩
+    | none =>
+      rcases List.mem_cons.mp h with h | h
+      · exact ⟨i, by simp [h]⟩
+      · obtain ⟨j, hj⟩ := ih (i + 1) h; rw [hj] at hr; cases hr
+
+theorem topicID_lt_length (topics : List Int) (name : Int) (j : Nat) (h : topicID topics name = some j) :
+    j < topics.length := by
+  have := (topicIDFrom_spec 0 topics name j h).2
+  rcases Nat.lt_or_ge j topics.length with h' | h'
+  · exact h'
+  · simp at this; rw [List.getElem?_eq_none h'] at this; cases this
 
 /-! ### the executable oracle decides the Prop-level spec -/
 
